@@ -22,7 +22,7 @@ if ! $GO test -vet=off -count=1 ./... > /tmp/confirm-$id.suite.log 2>&1; then
 fi
 echo "suite ok ($(grep -c '^ok' /tmp/confirm-$id.suite.log) packages)"
 rundemo() {
-  if [[ "$demo" == prog:* ]]; then bash -c "${demo#prog:}"; else $GO test ${DEMOFLAGS:-} -vet=off -count=1 -run "Demo|demo" ./$demo/ ; fi
+  if [[ "$demo" == prog:* ]]; then bash -c "${demo#prog:}"; else $GO test ${DEMOFLAGS:-} -vet=off -count=1 -run "${DEMORUN:-Demo|demo}" ./$demo/ ; fi
 }
 if [[ "$demo" != prog:* ]]; then cp $src/demo_test.go $demo/zz_demo_test.go; else cp -r $src/* . 2>/dev/null; fi
 echo "--- demo WITH the change (must fail)"
